@@ -370,6 +370,44 @@ func run(c *harness.C, k scfg, r world.Chooser) *out {
 					return out
 				}
 			}
+			if strings.HasPrefix(k.React, "lie:") {
+				// one Byzantine member answers every honest announcement with a fixed lying view of its
+				// own (authentic tag) and confirms whatever list it is asked about
+				b := k.Byz[0]
+				var lie []uint16
+				for _, f := range strings.Split(strings.TrimPrefix(k.React, "lie:"), ",") {
+					var x int
+					fmt.Sscan(f, &x)
+					lie = append(lie, uint16(x))
+				}
+				w.Net.Filter = func(p *world.Packet) []*world.Packet {
+					if p.Injected || !isIn(p.From, k.Invokers) || p.Type != 1 || len(p.Data) < 33 {
+						return []*world.Packet{p}
+					}
+					first := k.U[0]
+					if first == p.From {
+						first = k.U[1]
+					}
+					if p.To != first {
+						return []*world.Packet{p}
+					}
+					mu.Lock()
+					if heard[p.From] == nil {
+						heard[p.From] = map[uint16]bool{}
+					}
+					heard[p.From][b] = true
+					mu.Unlock()
+					out := []*world.Packet{p}
+					switch p.Data[0] {
+					case 1:
+						out = append(out, &world.Packet{From: b, To: p.From, Type: 1, Topic: topic, Data: encode(1, tagOf(b), lie)})
+					case 2:
+						d := append(append([]byte{3}, tagOf(b)...), p.Data[33:]...)
+						out = append(out, &world.Packet{From: b, To: p.From, Type: 1, Topic: topic, Data: d})
+					}
+					return out
+				}
+			}
 			if k.React == "stray-responses" {
 				// configured members that do not take part answer every announcement and every query
 				// of an honest member with a confirmation (of the asked list, or of the invokers' list)
@@ -856,6 +894,25 @@ func gen(c *harness.C) []harness.Case {
 		plans = append(plans, plan{scfg{Name: "stray-responses", U: []uint16{1, 2, 3, 4, 5, 6}, E: 3, Invokers: []uint16{1, 2, 3}, Byz: []uint16{4, 5, 6}, React: "stray-responses"}, bd})
 		plans = append(plans, plan{scfg{Name: "stray-responses", U: []uint16{1, 2, 3, 4, 5}, E: 3, Invokers: []uint16{1, 2, 3}, Byz: []uint16{4, 5}, React: "stray-responses"}, bd})
 		plans = append(plans, plan{scfg{Name: "stray-responses", U: []uint16{1, 2, 3, 4, 5, 6}, E: 2, Invokers: []uint16{1, 2}, Byz: []uint16{3, 4, 5, 6}, React: "stray-responses"}, bd})
+	}
+	// one Byzantine member whose announced view is every ordered pair / triple over a universe whose
+	// identifiers have one and two digits (views that differ but look alike when written out)
+	{
+		u := []uint16{1, 3, 12, 23}
+		for _, a := range u {
+			for _, b2 := range u {
+				if a == b2 {
+					continue
+				}
+				plans = append(plans, plan{scfg{Name: "lying-view", U: u, E: 2, Invokers: []uint16{1}, Byz: []uint16{23}, React: fmt.Sprintf("lie:%d,%d", a, b2)}, 0})
+				plans = append(plans, plan{scfg{Name: "lying-view", U: u, E: 2, Invokers: []uint16{12}, Byz: []uint16{3}, React: fmt.Sprintf("lie:%d,%d", a, b2)}, 0})
+			}
+		}
+		u2 := []uint16{1, 2, 11, 12, 21, 112}
+		for _, lie := range []string{"1,12,2", "11,2,2", "1,1,22", "112,2,1", "11,21,2", "1,121,2", "1,12", "11,2", "112"} {
+			plans = append(plans, plan{scfg{Name: "lying-view", U: u2, E: 3, Invokers: []uint16{1, 2}, Byz: []uint16{112}, React: "lie:" + lie}, 0})
+			plans = append(plans, plan{scfg{Name: "lying-view", U: u2, E: 3, Invokers: []uint16{11, 2}, Byz: []uint16{12}, React: "lie:" + lie}, 0})
+		}
 	}
 	// honest retries: one member is late, the others fail and try again
 	for _, u := range [][]uint16{{1, 2, 3}} {
